@@ -68,7 +68,7 @@ func c02case(c GCase, a *run.Acc) {
 func c02plan(tier string, seed int64) []run.Job {
 	var jobs []run.Job
 	jobs = append(jobs, run.Job{Family: "corpus"})
-	nr, per := 16, 120
+	nr, per := 16, 400
 	maxNodes := 5
 	if tier == "thorough" {
 		nr, per, maxNodes = 64, 500, 7
